@@ -322,6 +322,16 @@ func c02EpochsProperty(t *rapid.T) {
 			e.logf("heartbeat tick")
 			e.after(e.r.Timeout(1), "heartbeat tick")
 		},
+		"logout-timeout": func(t *rapid.T) {
+			// the engine has sent its Logout and nobody answers: the wait times out. The numbers
+			// handed out so far stay handed out
+			if e.r.V.StateName() != "logout" {
+				return
+			}
+			e.logf("logout timeout")
+			e.feat["logout-timeout"] = true
+			e.after(e.r.Timeout(3), "logout timeout")
+		},
 		"peer-logout": func(t *rapid.T) {
 			if !e.r.V.IsLoggedOn() {
 				return
